@@ -1,5 +1,6 @@
 import DimodModel.Store
 import DimodModel.Heap
+import DimodModel.HeapCache
 import DimodModel.Wire
 open Wire SSM Store
 
@@ -119,8 +120,65 @@ def step (ws : List String) : String :=
 
 end HeapDrv
 
+/-! ### Python-level objects with their `__dict__` caches (`DimodModel/HeapCache.lean`)
+    `pyc <names> <ops>`: ops separated by `;` run on (`names`: forwarding methods already stored by the constructor) a heap holding one model (Python object 0): `O<x>` = read `.spin`/`.binary` of
+    object x, `D<x>` / `F<x>:<name>` / `W<x>` / `V<x>:<name>` = an in-place edit of x directly / through a forwarding method /
+    through its other-vartype object / through that object's forwarding method, `C<x>` = `copy.copy`, `K<x>` = `copy.deepcopy`, `S<x>` = the variant sharing
+    the `__dict__` (not the code).  Answer: after every op, which Python objects read differently than before it
+    (`ch=`), then for every object `data,isView,other,fwd-names` with cy objects numbered by first appearance. -/
+
+open MHeap in
+def pyInit (names : List String) : PyHeap :=
+  let a := cyNew { cell := fun _ => .free, next := 0 }
+  -- the constructor itself goes through `self.add_linear` / `self.add_quadratic`: their bound methods are already stored
+  { h := mutate a.1 a.2 (fun _ => [1]) (fun _ => [1]), obj := fun i => if i = 0 then some ⟨a.2, false, none, names.map fun n => (n, a.2)⟩ else none,
+    nextId := 1 }
+
+open MHeap in
+def pyShow (p : PyHeap) : String :=
+  let objs := (List.range p.nextId).filterMap fun i => (p.obj i).map fun o => (i, o)
+  let datas := (objs.map (·.2.data)).eraseDups
+  String.intercalate "|" (objs.map fun (_, o) =>
+    s!"{datas.idxOf o.data},{b01 o.isView},{match o.other with | some v => toString v | none => "-"},{String.intercalate "+" ((o.fwd.map (·.1)).mergeSort (· ≤ ·))}")
+
+open MHeap in
+def pyReads (p : PyHeap) : List (List Rat × List Nat) :=
+  (List.range p.nextId).map fun i => match p.obj i with | some o => obs p.h o.data | none => ([], [])
+
+open MHeap in
+def pyStep (p : PyHeap) (op : String) : Option PyHeap :=
+  let bump : Edit := .coeffs (fun c => 1 :: c)
+  let body := (op.drop 1).toString
+  match op.take 1 |>.toString, body.splitOn ":" with
+  | "O", [x] => x.toNat?.map fun x => (pyOther p x).1
+  | "D", [x] => x.toNat?.map fun x => pyEdit p x .direct bump
+  | "W", [x] => x.toNat?.map fun x => pyEdit p x .otherDirect bump
+  | "F", [x, n] => x.toNat?.map fun x => pyEdit p x (.fwd n) bump
+  | "V", [x, n] => x.toNat?.map fun x => pyEdit p x (.otherFwd n) bump
+  | "C", [x] => x.toNat?.map fun x => (pyCopy p x (fun c => 0 :: c) false).1
+  | "K", [x] => x.toNat?.map fun x => (pyCopy p x (fun c => 0 :: c) true).1
+  | "S", [x] => x.toNat?.map fun x => (copySharingDict p x).1
+  | _, _ => none
+
+open MHeap in
+def pyScript (names ops : List String) : String :=
+  let rec go (p : PyHeap) (acc : List String) : List String → Option (PyHeap × List String)
+    | [] => some (p, acc.reverse)
+    | op :: t =>
+      match pyStep p op with
+      | none => none
+      | some q =>
+        let before := pyReads p
+        let after := pyReads q
+        let ch := (List.range p.nextId).filter fun i => before.getD i ([], []) != after.getD i ([], [])
+        go q ((if ch.isEmpty then "-" else String.intercalate "," (ch.map toString)) :: acc) t
+  match go (pyInit names) [] ops with
+  | some (p, chs) => s!"ok ch={String.intercalate "/" chs} {pyShow p}"
+  | none => "bad-op"
+
 def step (line : String) : String :=
   match line.trimAscii.toString.splitOn " " with
+  | ["pyc", names, ops] => pyScript (splitOr "+" names) (ops.splitOn ";")
   | "hcall" :: rest => HeapDrv.step ("hcall" :: rest)
   | "hadd" :: rest => HeapDrv.step ("hadd" :: rest)
   | "hcqm" :: rest => HeapDrv.step ("hcqm" :: rest)
